@@ -443,7 +443,7 @@ def run(ctx: Ctx):
     for f in L.rp_files():
         bad = L.risk_sanity(f)
         ctx.note("risk_params_sane:" + f.split("/")[-1].replace("Aave Protocol Parameter ", ""), "ok" if not bad else bad[:5])
-    n = ctx.scale(450, 15000)
+    n = ctx.scale(450, 12000)
     reqs = []
     for i in range(n):
         r = ctx.rng.random()
